@@ -39,6 +39,10 @@ func place(c l3Case, backendURL string) (string, Listeners) {
 	if m.Admin.Mode == Enabled {
 		m.Admin.Port = ad
 		ls.Admin = ad
+		ls.AdminToken = m.Admin.Token
+	}
+	if m.Plugins.Mode == Enabled {
+		ls.APIKey = m.Plugins.APIKey()
 	}
 	bs := make([]Backend, len(c.M.Backends))
 	for i, b := range c.M.Backends {
@@ -77,7 +81,8 @@ func runL3(t testing.TB, c l3Case) (Verdict, string) {
 func TestC18Binary(t *testing.T) {
 	sub := lab.Sub("accepted-starts-or-fails-clearly", "rapid: configurations in which every documented constraint holds (plugin numbers typed int/float/string, chain entries of any built-in plugin with config absent / null / {}, TLS enabled with the repository's sample certificate or with missing files, "+
 		"all features in all modes) started as the real helios binary with free ports substituted and a live httptest backend; 20% of the cases with two enabled listeners give them the same port; "+
-		"oracle: either the process exits non-zero with a fatal error line and no panic trace, or the proxy port serves a request through to the backend AND every enabled ancillary listener (metrics path, admin /v1/health) answers; "+
+		"string values (token, apiKey, header values, metrics / health-check paths, backend names) also with $ ${..} % # \\ : and other characters that are ordinary in a YAML scalar; "+
+		"oracle: either the process exits non-zero with a fatal error line and no panic trace, or the proxy port serves a request that carries the file's apiKey through to the backend AND every enabled ancillary listener (metrics at the file's path, admin /v1/health) answers AND the admin API does not answer 401 to the file's token (nor 200 to a longer one); "+
 		"anything else (no decision, listener missing, request not served) is a violation; non-trivial = >= 2 of {metrics, admin_api, TLS, plugins with typed options, active health checks, rate limit, circuit breaker} enabled")
 	sub.NontrivialFloor(0.50)
 	sub.Floor("outcome=serving", 0.30)
